@@ -11,7 +11,197 @@ import (
 
 // Third-generation rules, added after the round-3 seeded changes (DESIGN §6).
 
+// W9.stateless: the message factory is a pure function of its inputs and the term's constants: nothing it built before
+// can leak into a later message (a cached certificate would make a node keep reporting its first lock).
+func runFactoryStateless(a *Analyzer, r *Results) {
+	var writers []string
+	pos := "-"
+	n := 0
+	for _, f := range a.P.Funcs {
+		for loc := range a.ownWrites[f] {
+			if !strings.HasPrefix(loc, "messagesfactory.MessageFactory.") {
+				continue
+			}
+			n++
+			// the constructor (the function that allocates the factory) fills the fields
+			isCtor := false
+			for _, b := range f.Blocks {
+				for _, in := range b.Instrs {
+					if al, ok := in.(*ssa.Alloc); ok && al.Heap {
+						if pt, ok := al.Type().Underlying().(*types.Pointer); ok && typeShort(pt.Elem()) == "messagesfactory.MessageFactory" {
+							isCtor = true
+						}
+					}
+				}
+			}
+			if !isCtor {
+				writers = append(writers, shortName(f)+" writes "+loc)
+				pos = a.P.Pos(f.Pos())
+			}
+		}
+	}
+	if n == 0 {
+		r.Undecided = append(r.Undecided, "no write of a MessageFactory field found (W9.stateless anchor)")
+		return
+	}
+	writers = dedupSorted(writers)
+	r.Check("W9.stateless", props("C01", "C09", "C11", "C07", "C20"), "the message factory keeps no state between messages: its fields are written by its constructor only, so every message is built from the current arguments (never from a remembered earlier certificate)", "MessageFactory", pos, len(writers) == 0, strings.Join(writers, "; "), "W")
+}
+
+// K6.members: the committee a term decides with - members, weights and, through the order, the leader of every view - is
+// exactly what Membership.RequestOrderedCommittee answered for this height and seed: no remembered committee, no
+// substitute from another SPI method, no local reordering. All nodes must use the same ordered list.
+func runCommitteeSource(a *Analyzer, r *Results) {
+	pr := props("C18", "C03", "C08", "C01", "C06")
+	isOrderedCall := func(v ssa.Value) bool {
+		c, ok := v.(*ssa.Call)
+		return ok && c.Call.IsInvoke() && c.Call.Method.Name() == "RequestOrderedCommittee" && typeShort(c.Call.Value.Type()) == "interfaces.Membership"
+	}
+	// (b) the function that asks the SPI hands back the answer of a successful call, nothing else
+	var askers []*ssa.Function
+	for _, f := range a.P.Funcs {
+		for _, b := range f.Blocks {
+			for _, in := range b.Instrs {
+				if v, ok := in.(ssa.Value); ok && isOrderedCall(v) {
+					askers = append(askers, f)
+				}
+			}
+		}
+	}
+	if len(askers) == 0 {
+		r.Undecided = append(r.Undecided, "no call of Membership.RequestOrderedCommittee found (K6.members anchor)")
+		return
+	}
+	asker := map[*ssa.Function]bool{}
+	for _, f := range askers {
+		if asker[f] {
+			continue
+		}
+		asker[f] = true
+		nOK := 0
+		for _, b := range f.Blocks {
+			ret, ok := b.Instrs[len(b.Instrs)-1].(*ssa.Return)
+			if !ok || len(ret.Results) < 1 {
+				continue
+			}
+			cidx := -1
+			for i, rv := range ret.Results {
+				if isCommitteeSlice(rv.Type()) {
+					cidx = i
+				}
+			}
+			if cidx < 0 {
+				continue
+			}
+			if k, isK := ret.Results[cidx].(*ssa.Const); isK && k.IsNil() {
+				continue // a refusal
+			}
+			nOK++
+			ex, isEx := ret.Results[cidx].(*ssa.Extract)
+			good := isEx && ex.Index == 0 && isOrderedCall(ex.Tuple)
+			why := "returns a committee that is not the answer of RequestOrderedCommittee"
+			if good {
+				// ... of a call that succeeded: the return is dominated by the `err == nil` branch of that call
+				good = false
+				why = "returns the answer of RequestOrderedCommittee without testing its error"
+				call := ex.Tuple.(*ssa.Call)
+				for _, db := range f.Blocks {
+					if !db.Dominates(b) {
+						continue
+					}
+					if skip := errFailingSucc(db, call); skip >= 0 && len(db.Succs) == 2 {
+						succ := db.Succs[1-skip]
+						if succ == b || succ.Dominates(b) {
+							good, why = true, ""
+						}
+					}
+				}
+			}
+			r.Check("K6.members", pr, "the committee of a term is the answer of a successful Membership.RequestOrderedCommittee call for this height and seed: never a remembered one, never one obtained from another method", shortName(f)+"|source", a.P.InstrPos(ret), good, why, "P")
+		}
+		if nOK == 0 {
+			r.Undecided = append(r.Undecided, shortName(f)+": no return handing back a committee (K6.members)")
+		}
+	}
+	// (a) what is handed to the term constructor is that answer, untouched
+	n := 0
+	for _, f := range a.P.Funcs {
+		c := a.NewFCtx(f, a.EntryEnv(f, nil), 0)
+		for _, b := range f.Blocks {
+			for _, in := range b.Instrs {
+				call, ok := in.(*ssa.Call)
+				if !ok {
+					continue
+				}
+				sc := call.Call.StaticCallee()
+				if sc == nil || shortName(sc) != "termincommittee.NewTermInCommittee" {
+					continue
+				}
+				for _, arg := range call.Call.Args {
+					if !isCommitteeSlice(arg.Type()) {
+						continue
+					}
+					n++
+					t := c.Term(arg)
+					good := false
+					if t.Op == "ext" && t.Name == "0" && len(t.Args) == 1 && t.Args[0].Op == "call" {
+						if g := a.calleeOf(t.Args[0]); g != nil && asker[g] {
+							good = true
+						}
+						if t.Args[0].Name == "interfaces.RequestOrderedCommittee" {
+							good = true
+						}
+					}
+					r.Check("K6.members", pr, "the committee of a term is the answer of a successful Membership.RequestOrderedCommittee call for this height and seed: never a remembered one, never one obtained from another method", shortName(f)+"|term", a.P.InstrPos(in), good, "the term is built with "+PP(t)+", not with the ordered committee as it was answered (copied, reordered or replaced)", "D")
+				}
+			}
+		}
+	}
+	if n == 0 {
+		r.Undecided = append(r.Undecided, "no committee argument of NewTermInCommittee found (K6.members anchor)")
+	}
+}
+
+// W6.nil: a factory function declines to build (returns nil) only for an absent input as a whole; it never drops a
+// partially filled input, whose present parts must be encoded (the readers tell absent parts apart themselves).
+func runFactoryNil(a *Analyzer, r *Results) {
+	n := 0
+	for _, f := range a.P.Funcs {
+		if !strings.HasSuffix(funcPkgPath(f), "services/messagesfactory") || f.Parent() != nil || f.Object() == nil || !f.Object().Exported() {
+			continue
+		}
+		res := f.Signature.Results()
+		if res.Len() != 1 || !strings.HasSuffix(typeShort(res.At(0).Type()), "Builder") {
+			continue
+		}
+		rets, und := a.Returns(funcID(f), nil)
+		r.Undecided = append(r.Undecided, und...)
+		for _, e := range rets {
+			if len(e.Args) != 1 || e.Args[0].Key() != tNil.Key() || e.Instr.Parent() != f {
+				continue
+			}
+			n++
+			bad := ""
+			for _, ct := range e.PathConds() {
+				u := unsnap(ct)
+				u.Walk(func(x *Term) {
+					if x.Op == "field" || x.Op == "len" || x.Op == "call" {
+						bad = PP(u)
+					}
+				})
+			}
+			r.Check("W6.nil", props("C20", "C09", "C11"), "a factory function returns no builder only when its whole input is absent (nil): an input with some parts present is encoded with those parts, never dropped", shortName(f), e.Pos(a), bad == "", "returns nil depending on "+bad, "A")
+		}
+	}
+	if n == 0 {
+		r.Undecided = append(r.Undecided, "no nil-returning factory function found (W6.nil anchor)")
+	}
+}
+
 func runR3(a *Analyzer, r *Results) {
+	runFactoryNil(a, r)
+	runFactoryStateless(a, r)
+	runCommitteeSource(a, r)
 	runArming(a, r)
 	runStorageLog(a, r)
 	runConsumers(a, r)
@@ -282,6 +472,10 @@ func runStorageLog(a *Analyzer, r *Results) {
 			return tainted(x.X, seen)
 		case *ssa.Extract:
 			return tainted(x.Tuple, seen)
+		case *ssa.Next:
+			return tainted(x.Iter, seen) // a value met while ranging over a level of a log
+		case *ssa.Range:
+			return tainted(x.X, seen)
 		case *ssa.Phi:
 			for _, e := range x.Edges {
 				if tainted(e, seen) {
@@ -294,6 +488,29 @@ func runStorageLog(a *Analyzer, r *Results) {
 					if ret, ok := b.Instrs[len(b.Instrs)-1].(*ssa.Return); ok {
 						for _, rv := range ret.Results {
 							if _, isMap := rv.Type().Underlying().(*types.Map); isMap && tainted(rv, seen) {
+								return true
+							}
+						}
+					}
+				}
+			}
+		case *ssa.Parameter:
+			// a level of a log handed to a helper of the storage package
+			g := x.Parent()
+			if _, isMap := x.Type().Underlying().(*types.Map); !isMap || g == nil || !strings.HasSuffix(funcPkgPath(g), "services/storage") {
+				return false
+			}
+			pidx := -1
+			for i, p := range g.Params {
+				if p == x {
+					pidx = i
+				}
+			}
+			for _, cf := range a.staticCallers(g) {
+				for _, cb := range cf.Blocks {
+					for _, ci := range cb.Instrs {
+						if call, ok := ci.(ssa.CallInstruction); ok && call.Common().StaticCallee() == g && pidx >= 0 && pidx < len(call.Common().Args) {
+							if tainted(call.Common().Args[pidx], seen) {
 								return true
 							}
 						}
